@@ -187,6 +187,27 @@ class CacheDriver:
                     e["w"] = _okd(sg.weights, W * rg.weights[1] * rg.points[1] ** 2)
                     e["pa"], e["wa"] = self._aliases(sg.points, m), self._aliases(sg.weights, m)
                     self.objs.append((m, sg.points, sg.weights, sg))
+                elif kind == "AtomRot":
+                    ar = AtomGrid(rg, degrees=[int(d)], method=m, rotate=11, center=np.array([0.3, -0.1, 0.2]))
+                    ok = True
+                    for i, r in enumerate(rg.points):
+                        sh = np.asarray(ar.points)[i * n:(i + 1) * n] - np.array([0.3, -0.1, 0.2])
+                        # an orthogonal image of r * shipped points has the same Gram matrix
+                        ok = ok and np.allclose(sh @ sh.T, (P * r) @ (P * r).T, rtol=0, atol=1e-11 * (1 + r * r))
+                    e["p"] = "ok" if ok else "dirty"
+                    e["w"] = _okd(ar.weights, np.hstack([W * wr * r ** 2 for r, wr in zip(rg.points, rg.weights)]))
+                    e["pa"], e["wa"] = self._aliases(ar._points, m), self._aliases(ar.weights, m)
+                elif kind == "Mol":
+                    from grid.becke import BeckeWeights
+                    from grid.molgrid import MolGrid
+                    c1, c2 = np.array([0.0, 0.0, -0.8]), np.array([0.0, 0.3, 0.9])
+                    a1 = AtomGrid(rg, degrees=[int(d)], method=m, center=c1)
+                    a2 = AtomGrid(rg, degrees=[int(d)], method=m, center=c2)
+                    mg = MolGrid(np.array([1, 8]), [a1, a2], BeckeWeights(), store=True)
+                    exp_p = np.vstack([P * r + c for c in (c1, c2) for r in rg.points])
+                    exp_w = np.hstack([W * wr * r ** 2 for _ in (0, 1) for r, wr in zip(rg.points, rg.weights)])
+                    e["p"], e["w"] = _okd(mg.points, exp_p), _okd(mg.atweights, exp_w)
+                    e["pa"], e["wa"] = self._aliases(mg.points, m), self._aliases(mg.atweights, m) or self._aliases(mg.weights, m)
                 else:
                     v = np.cos(np.arange(2 * n) * 0.37) + 2.0
                     got = ag.integrate_angular_coordinates(v)
@@ -283,7 +304,7 @@ def _model_runs(rep, wd):
     rep.tlc(r, "MC_Cache_copying")
     if r.status == "violation":
         rep.violation("model:design", f"the copying design violates {r.violated}", tlc.last_state(r))
-    for act in ("NewAngular", "Edit", "Drop", "NewAtom", "Shell", "AtomOp"):
+    for act in ("NewAngular", "Edit", "Drop", "NewAtom", "Shell", "AtomOp", "NewAtomRot", "NewMol"):
         if act in r.coverage and r.coverage[act][1] == 0:
             raise tlc.MachineryError(f"vacuity: action {act} never taken")
     r2 = tlc.run_tlc("CacheSys", "MC_Cache_asShippedFresh.cfg", wd, workers=4).require_ok("asShipped")
@@ -378,7 +399,7 @@ def run(tier: str) -> int:
                 if d.objs:
                     d.drop(rng.randint(1, len(d.objs)))
             else:
-                d.atom(m, rng.choice(small[m]), rng.choice(["Atom", "Shell", "AtomOp"]))
+                d.atom(m, rng.choice(small[m]), rng.choice(["Atom", "Shell", "AtomOp", "AtomRot", "Mol"]))
         if d.events:
             traces.append(d.events)
             meta.append({"random": True})
